@@ -104,7 +104,7 @@ Qed.
 
 Theorem step_no_panic c s e : Inv13 s -> exists s' o, step c s e = Ok s' o /\ Inv13 s'.
 Proof.
-  intros H. destruct e as [p|p|p a|p sub since until|dt|rid|rid]; cbn [step].
+  intros H. destruct e as [p|p|p a|p sub since until|dt|rid|rid|tnow]; cbn [step].
   - eexists; eexists; split; [reflexivity|]. unfold Inv13; unf_set; exact H.
   - eexists; eexists; split; [reflexivity|]. unfold Inv13; unf_set; exact H.
   - destruct (lookup p (sessions s)); [|eexists; eexists; split; [reflexivity|exact H]].
@@ -136,6 +136,7 @@ Proof.
       destruct (announce_inventory_ok c s3 H3) as (s4 & o & E & Ei). rewrite E.
       eexists; eexists; split; [reflexivity|]. unfold Inv13. rewrite Ei. exact H3.
     + eexists; eexists; split; [reflexivity|]. unfold Inv13. rewrite Hi. exact H.
+  - eexists; eexists; split; [reflexivity|]. unfold Inv13; unf_set; exact H.
 Qed.
 
 Theorem run_no_panic c : forall es s, Inv13 s -> run c s es <> None.
@@ -526,7 +527,7 @@ Proof.
   assert (forall s2, last_ts s2 = last_ts s -> inv_ts s2 = inv_ts s -> node_ts s2 = node_ts s ->
                      own_rows_ok c H (gossip s2) -> Inv29 c (H ++ []) s2) as Keep.
   { intros s2 E1 E2 E3 E4. rewrite app_nil_r. unfold Inv29. rewrite E1, E2, E3. auto. }
-  destruct e as [p|p|p a|p sub since until|dt|rid|rid]; cbn [step].
+  destruct e as [p|p|p a|p sub since until|dt|rid|rid|tnow]; cbn [step].
   - (* connect *)
     intros E; inversion E; subst; clear E. unfold step29_result. cbn [draws flat_map app].
     split; [left; split; reflexivity|]. split; [apply Keep; unf_set; auto|].
@@ -643,11 +644,13 @@ Proof.
       split; [exact I4|exact F4].
     + intros E; inversion E; subst; clear E. unfold step29_result. cbn [draws flat_map app own_ts].
       split; [right; exists (last_ts s'); repeat split; auto|]. split; [exact I1|constructor].
+  - intros E; inversion E; subst; clear E. unfold step29_result. cbn.
+    split; [left; split; reflexivity|]. split; [apply Keep; unf_set; auto|constructor].
 Qed.
 
 Lemma step_sorted c s e s' o : sorted (sessions s) -> step c s e = Ok s' o -> sorted (sessions s').
 Proof.
-  intros Hs. destruct e as [p|p|p a|p sub since until|dt|rid|rid]; cbn [step].
+  intros Hs. destruct e as [p|p|p a|p sub since until|dt|rid|rid|tnow]; cbn [step].
   - intros E; inversion E; subst; unf_set. unfold insert. apply sorted_upsert. exact Hs.
   - intros E; inversion E; subst; unf_set. apply sorted_remove. exact Hs.
   - destruct (lookup p (sessions s)); [|intros E; inversion E; subst; exact Hs].
@@ -683,6 +686,7 @@ Proof.
     destruct (N.eqb _ _); [intros E; inversion E; subst; unf_set; rewrite Hss; exact Hs|].
     destruct (announced _ _ _); [discriminate| |]; intros E; inversion E; subst; unf_set;
       rewrite Hss; exact Hs.
+  - intros E; inversion E; subst; unf_set; exact Hs.
 Qed.
 
 Fixpoint incr_from (b : N) (l : list N) : Prop :=
@@ -829,7 +833,7 @@ Definition confined (c : config) (p : N) (a : ann) (pth : path) : Prop :=
 Theorem step_refs_confined c s e s' o : step c s e = Ok s' o ->
   forall p a pth, In (OWrite p a pth) o -> confined c p a pth.
 Proof.
-  unfold confined. destruct e as [q|q|q b|q sub since until|dt|rid|rid]; cbn [step].
+  unfold confined. destruct e as [q|q|q b|q sub since until|dt|rid|rid|tnow]; cbn [step].
   - intros E; inversion E; subst; clear E. intros p a pth [H|[H|[]]] Hk; inversion H; subst; discriminate.
   - intros E; inversion E; subst. intros p a pth [].
   - destruct (lookup q (sessions s)); [|intros E; inversion E; subst; intros p a pth []].
@@ -864,6 +868,7 @@ Proof.
       intros E; inversion E; subst; clear E. intros p a pth [H|H] Hk; [discriminate|].
       destruct (announce_inventory_in _ _ _ _ _ _ _ E4 H) as (-> & _). discriminate.
     + intros E; inversion E; subst. intros p a pth [H|[]]. discriminate.
+  - intros E; inversion E; subst. intros p a pth [].
 Qed.
 
 (* the same for whole traces *)
@@ -951,7 +956,7 @@ Proof.
   intros Hsorted HP Hcmd. pose proof HP as (P1 & P2 & P3).
   assert (own_inv_public c (own_inv_ann c s)) as Hown.
   { intros _ _ rid Hr. cbn in Hr. apply P2. exact Hr. }
-  destruct e as [q|q|q b|q sub since until|dt|rid|rid]; cbn [step].
+  destruct e as [q|q|q b|q sub since until|dt|rid|rid|tnow]; cbn [step].
   - intros E; inversion E; subst; clear E. split; [unfold InvPub, me_routes; unf_set; auto|].
     intros p a pth [H|[H|[]]]; inversion H; subst; [|exact Hown].
     intros _ Hk. discriminate.
@@ -1037,6 +1042,7 @@ Proof.
       destruct (announce_inventory_in _ _ _ _ _ _ _ E4 H) as (-> & _).
       intros _ _ x Hx. cbn in Hx. destruct HP3 as (_ & Q2 & _). apply Q2. exact Hx.
     + intros E; inversion E; subst. split; [exact HP1|]. intros p a pth [H|[]]. discriminate.
+  - intros E; inversion E; subst. split; [unfold InvPub, me_routes; unf_set; auto|intros p a pth []].
 Qed.
 
 Theorem run_inventory_public c : forall es s s' os, sorted (sessions s) -> InvPub c s ->
@@ -1360,7 +1366,7 @@ Qed.
 Theorem step_10 c s e s' o : Inv10 c s -> step c s e = Ok s' o -> Inv10 c s' /\ out_ok10 c s' o.
 Proof.
   intros HI. pose proof HI as (I1 & I2 & I3 & I4 & I5 & I6).
-  destruct e as [q|q|q b|q sub since until|dt|rid|rid]; cbn [step].
+  destruct e as [q|q|q b|q sub since until|dt|rid|rid|tnow]; cbn [step].
   - intros E; inversion E; subst; clear E. split.
     + eapply Inv10_frame with (s := s); [reflexivity|reflexivity|reflexivity| |unf_set; lia|exact HI].
       unf_set. unfold insert. apply sorted_upsert. exact I4.
@@ -1485,6 +1491,9 @@ Proof.
       destruct (announce_inventory_in _ _ _ _ _ _ _ E4 H) as (-> & ->).
       split; [discriminate|]. intros [Hx|Hx]; discriminate.
     + intros E; inversion E; subst. split; [exact HI1|]. intros p a pth [H|[]]. discriminate.
+  - intros E; inversion E; subst; clear E. split; [|apply out_ok10_nil].
+    eapply Inv10_frame with (s := s); [reflexivity|reflexivity|reflexivity|exact I4| |exact HI].
+    unf_set. destruct (N.leb_spec (clock s) tnow); lia.
 Qed.
 
 (* every step of every trace: no panic, and the outputs are fine with respect
